@@ -3236,10 +3236,46 @@ class Evaluator:
                 if isinstance(n, ast.Call) and isinstance(n.func, ast.Attribute) and isinstance(n.func.value, ast.Name) and n.func.value.id == prm \
                         and n.func.attr in MUTATORS:
                     mutated = True
+            if not mutated:
+                # ... or hands it to a helper that modifies it (`_exogenize(graph, node, ...)` as a statement)
+                for n in ast.walk(r.node):
+                    if isinstance(n, ast.Call) and isinstance(n.func, ast.Name):
+                        g = self.model.resolve_name(r.module, n.func.id)
+                        if isinstance(g, Func) and g.qname != r.qname and g.cls is None:
+                            for gp in self._mutated_params(g):
+                                if self._actual_names(g, n, False).get(gp) == prm:
+                                    mutated = True
             if (mutated or via_callee[0]) and not rebound:
                 res = prm
         cache[r.qname] = res
         return res
+
+    def _mutated_params(self, g: Func, depth: int = 0) -> set:
+        """parameters of a module-level helper whose OBJECT the helper modifies (a mutator method, a subscript store, or a further helper)"""
+        cache = self.__dict__.setdefault("_mutated_params_cache", {})
+        if g.qname in cache:
+            return cache[g.qname]
+        cache[g.qname] = set()
+        a = g.node.args
+        params = {x.arg for x in a.posonlyargs + a.args + a.kwonlyargs}
+        rebound = {n.id for n in ast.walk(g.node) if isinstance(n, ast.Name) and isinstance(n.ctx, ast.Store)}
+        out = set()
+        for n in ast.walk(g.node):
+            if isinstance(n, ast.Subscript) and isinstance(n.ctx, (ast.Store, ast.Del)) and isinstance(n.value, ast.Name) and n.value.id in params:
+                out.add(n.value.id)
+            if isinstance(n, ast.Call) and isinstance(n.func, ast.Attribute) and isinstance(n.func.value, ast.Name) and n.func.value.id in params \
+                    and n.func.attr in MUTATORS:
+                out.add(n.func.value.id)
+            if depth < 3 and isinstance(n, ast.Call) and isinstance(n.func, ast.Name):
+                h = self.model.resolve_name(g.module, n.func.id)
+                if isinstance(h, Func) and h.qname != g.qname and h.cls is None:
+                    for hp in self._mutated_params(h, depth + 1):
+                        nm = self._actual_names(h, n, False).get(hp)
+                        if nm in params:
+                            out.add(nm)
+        out -= rebound
+        cache[g.qname] = out
+        return out
 
     def _modified_in_place(self, final: Term, initial: Term, depth: int = 0) -> bool:
         """Does `final` denote the object `initial` after in-place modification (as opposed to another object bound to the same name)?"""
@@ -3254,6 +3290,9 @@ class Evaluator:
             return self._modified_in_place(final[2], initial, depth + 1) and self._modified_in_place(final[3], initial, depth + 1)
         if h == "after-iteration":
             return self._modified_in_place(final[1], initial, depth + 1)
+        if h == "accum" and len(final) > 2 and final[1] == "effect":
+            # a loop that calls a modifying method of the object once per element: still that object
+            return self._modified_in_place(final[2], initial, depth + 1)
         if h == "index" and final[2] == const(0) and final[1][0] == "call":
             r0 = self.model.functions.get(final[1][1]) if isinstance(final[1][1], str) else None
             if r0 is not None and self._inplace_param(r0) is not None and self.__dict__.get("_inplace_comp", {}).get(r0.qname) == 0:
